@@ -431,6 +431,59 @@ func (p *c11) Run(rec *core.Recorder, seed uint64, idx int, tier string) {
 		return
 	}
 	idx -= 6 * 4 * 3
+	if idx%40 == 27 {
+		// one optional include tag whose name varies: a name that does not exist gives nothing, a name that exists is rendered,
+		// in whatever order the two come (within one render, and from one render of the template to the next)
+		r := core.NewRand("C11opt", seed, idx)
+		base := []string{"part", "nope", "part", "other", "gone", "other"}
+		names := make([]string, len(base))
+		for i, j := range r.Perm(len(base)) {
+			names[i] = base[j]
+		}
+		srcs := map[string]string{"part": "P{{ x }}", "other": "O{{ x }}",
+			"main": "{% for n in ns %}[{% include n ignore missing %}]{% endfor %}|<{% include w ignore missing with {'x': 9} %}>|{% include ['nope', w] ignore missing %}"}
+		out := map[string]string{"part": "P", "other": "O", "nope": "", "gone": ""}
+		rec.Eval("optional-includes", canonSrcs(srcs)+fmt.Sprint(names), true)
+		rec.Count("optional-include-histories", 1)
+		var got, want []string
+		var rerr error
+		panicked, site, pv, stack := core.Guard(func() {
+			e := freshEngine(srcs)
+			for round := 0; round < 3 && rerr == nil; round++ {
+				w := names[(round*2+1)%len(names)]
+				ns := make([]interface{}, len(names))
+				var wb strings.Builder
+				for i, n := range names {
+					ns[i] = n
+					wb.WriteString("[" + out[n])
+					if out[n] != "" {
+						wb.WriteString("7")
+					}
+					wb.WriteString("]")
+				}
+				wb.WriteString("|<" + out[w])
+				if out[w] != "" {
+					wb.WriteString("9")
+				}
+				wb.WriteString(">|")
+				var o string
+				o, rerr = e.Render("main", map[string]interface{}{"ns": ns, "w": w, "x": 7})
+				if i := strings.LastIndex(o, "|"); i >= 0 {
+					o = o[:i+1] // (what an array of names resolves to is not judged here)
+				}
+				got, want = append(got, o), append(want, wb.String())
+			}
+		})
+		cs := map[string]any{"templates": srcs, "names": names}
+		if panicked {
+			rec.Violate("panic", "panic@"+site, "engine panicked: "+pv, cs, stack)
+			return
+		}
+		if rerr != nil || strings.Join(got, "\n") != strings.Join(want, "\n") {
+			rec.Violate("reference-model", "c11-optional-include", fmt.Sprintf("an `ignore missing` include with a varying name, rendered three times: engine gave %s (err=%v), include semantics require %s", core.Q(strings.Join(got, " / ")), rerr, core.Q(strings.Join(want, " / "))), cs, "")
+		}
+		return
+	}
 	if idx%40 == 17 {
 		// an include inside a loop reads the includer's loop variables, before and after loops of its own
 		r := core.NewRand("C11loop", seed, idx)
